@@ -719,6 +719,47 @@ def _e2e(depth, acc, apex):
     return ok
 
 
+def _e2e_unfiltered(depth, apex, generic):
+    """No tile filter at all (the pyramid's _tile_filter stays None unless the sub-pyramid installs one): generic and
+    TOAST pyramids, whole or restricted to a sub-pyramid — walk order, leaf visits and the three counters."""
+    def mk():
+        p = Pyramid.new_generic(depth) if generic else Pyramid.new_toast(depth)
+        if apex.n > 0:
+            p.subpyramid(apex)
+        return p
+
+    _l, order, leaves, nlive = _ref(depth, lambda pos: True, apex, Pos(0, 0, 0))
+    seen = []
+    mk().walk(seen.append, parallel=1)
+    vis = []
+    mk().visit_leaves(lambda pos, t: vis.append((pos, t.pos if t is not None else None)), parallel=1)
+    if generic:
+        ok = seen == order and vis == [(q, None) for q in leaves]
+    else:
+        ok = seen == order and vis == [(q, q if q.n > 0 else None) for q in leaves]
+    ok = ok and mk().count_operations() == len(order) and mk().count_leaf_tiles() == len(leaves)
+    ok = ok and mk().count_live_tiles() == nlive and len(order) + len(leaves) == nlive
+    return ok
+
+
+def chk_e2e_unfiltered_generic(an: int, ax: int, ay: int, depth: int) -> bool:
+    """
+    pre: 0 <= an <= 2 and an <= depth <= 3
+    pre: 0 <= ax < 2**an and 0 <= ay < 2**an
+    post: _
+    """
+    return _e2e_unfiltered(depth, Pos(an, ax, ay), True)
+
+
+def chk_e2e_unfiltered_toast(an: int, ax: int, ay: int, depth: int) -> bool:
+    """
+    pre: 0 <= an <= 2 and an <= depth <= 3 and depth >= 1
+    pre: 0 <= ax < 2**an and 0 <= ay < 2**an
+    post: _
+    """
+    return _e2e_unfiltered(depth, Pos(an, ax, ay), False)
+
+
 def chk_e2e_depth1(m1: int, an: int, ax: int, ay: int) -> bool:
     """
     pre: 0 <= m1 < 16
